@@ -999,8 +999,58 @@ func (r *Run) checkSearchPolarity(f *prog.FuncInfo, loop *ast.ForStmt, lowObj, h
 					return true
 				}
 			case *ast.SwitchStmt:
-				if touches(x) {
-					ef.undecided = true
+				if x.Tag != nil || x.Init != nil {
+					if touches(x) {
+						ef.undecided = true
+					}
+					continue
+				}
+				// tagless switch: the first case whose conditions hold (default last)
+				var chosen *ast.CaseClause
+				var def *ast.CaseClause
+				undec := false
+				for _, cl := range x.Body.List {
+					cc := cl.(*ast.CaseClause)
+					if cc.List == nil {
+						def = cc
+						continue
+					}
+					if chosen != nil {
+						continue
+					}
+					for _, e := range cc.List {
+						v, ok := eval(e, sign)
+						if !ok {
+							undec = true
+							break
+						}
+						if v {
+							chosen = cc
+							break
+						}
+					}
+					if undec {
+						break
+					}
+				}
+				if undec {
+					if touches(x) {
+						ef.undecided = true
+					}
+					continue
+				}
+				if chosen == nil {
+					chosen = def
+				}
+				if chosen != nil {
+					stopped := run(chosen.Body, sign, ef)
+					// a `break` inside a switch case leaves the switch only
+					if stopped && !ef.ret {
+						continue
+					}
+					if stopped {
+						return true
+					}
 				}
 			}
 		}
